@@ -69,3 +69,36 @@ pub fn replay(path: &str) -> i32 {
         0
     }
 }
+
+/// debugging aid: run actions on an engine world and print what happens
+pub fn trace(cfg_json: &str, acts_json: &str) -> i32 {
+    use crate::acts::*;
+    use crate::obs::*;
+    use crate::world::*;
+    let mut cfg = Cfg::default();
+    let over: serde_json::Value = serde_json::from_str(cfg_json).expect("cfg json");
+    let mut base = crate::evidence::to_val(&cfg);
+    if let Some(o) = over.as_object() {
+        for (k, v) in o {
+            base[k] = v.clone();
+        }
+    }
+    cfg = crate::evidence::from_val(&base);
+    let acts: Vec<Act> = serde_json::from_str(acts_json).expect("actions json");
+    let mut w = World::new(&cfg);
+    let traders = ["alice", "bob", "carol"];
+    for (i, a) in acts.iter().enumerate() {
+        let o = apply(&mut w, a);
+        println!("step {:2}: {:?}\n         ok={} {}", i, a, o.ok, o.err.replace('\n', " "));
+        let ob = observe(&w, &traders);
+        let v = &ob.vamms[0];
+        println!("         t={} h={} spot={} q={} b={} tps={} cum={} oracle={} vault={} if={} fp={} baddebt={}", ob.now, ob.height, v.spot, v.state.quote_asset_reserve, v.state.base_asset_reserve, v.state.total_position_size, v.cum, v.oracle, ob.balances[w.engine.as_str()], ob.balances[w.ifund.as_str()], ob.balances[w.fee_pool.as_str()], ob.prepaid_bad_debt);
+        for t in traders {
+            let to = &ob.traders[&(0, t.to_string())];
+            if let Some(p) = &to.pos {
+                println!("         {}: size={} margin={} notional={} cp={} blk={} out_spot={} out_twap={} ratio(ref,liq)={:?} ratio(query)={:?} bal={}", t, p.size, p.margin, p.notional, p.last_updated_premium_fraction, p.block_number, to.out_spot, to.out_twap, ref_ratio(to, v, true), w.margin_ratio(0, t).map(|x| x.to_string()), ob.balances[t]);
+            }
+        }
+    }
+    0
+}
